@@ -259,6 +259,22 @@ uint32_t __gmpz_cmp_ui(mpz_m *a, uint64_t v) { gz_t x = gz_get(a); gz2_t y = gz_
 #else
 #define GZ_BITS 120
 #endif
+/* size / magnitude queries and power-of-two scaling */
+uint64_t __gmpz_sizeinbase(mpz_m *z, uint32_t base) {
+  __CPROVER_assert(base == 2, "gmp model: mpz_sizeinbase is modelled for base 2 only");
+  gz_t v = gz_get(z); if (v < 0) v = -v;
+  /* loop-free: position of the highest set bit by conditional halving (no unwinding bound needed); GMP: the result for 0 is 1 */
+  uint64_t n = 0; gz_t t = v;
+#define GZ_SIZE_STEP(k) if ((k) <= GZ_BITS && (t >> ((k) <= GZ_BITS ? (k) : 0)) != 0) { n += (k); t = t >> ((k) <= GZ_BITS ? (k) : 0); }
+  GZ_SIZE_STEP(64) GZ_SIZE_STEP(32) GZ_SIZE_STEP(16) GZ_SIZE_STEP(8) GZ_SIZE_STEP(4) GZ_SIZE_STEP(2) GZ_SIZE_STEP(1)
+  return n + 1;
+}
+uint32_t __gmpz_cmpabs(mpz_m *a, mpz_m *b) { gz_t x = gz_get(a), y = gz_get(b); if (x < 0) x = -x; if (y < 0) y = -y; return (uint32_t)(x < y ? -1 : (x > y ? 1 : 0)); }
+uint32_t __gmpz_cmpabs_ui(mpz_m *a, uint64_t v) { gz_t x = gz_get(a); if (x < 0) x = -x; gz2_t y = gz_zx64(v); return (uint32_t)(x < y ? -1 : (x > y ? 1 : 0)); }
+void __gmpq_get_num(mpz_m *r, mpq_m *q) { gz_put(r, gz_get(&q->f0)); }
+void __gmpq_get_den(mpz_m *r, mpq_m *q) { gz_put(r, gz_get(&q->f1)); }
+void __gmpq_set_num(mpq_m *q, mpz_m *z) { gz_put(&q->f0, gz_get(z)); }
+void __gmpq_set_den(mpq_m *q, mpz_m *z) { gz_put(&q->f1, gz_get(z)); }
 void __gmpz_and(mpz_m *r, mpz_m *a, mpz_m *b) { gz_put(r, (gz2_t)(gz_t)(gz_get(a) & gz_get(b))); }
 void __gmpz_ior(mpz_m *r, mpz_m *a, mpz_m *b) { gz_put(r, (gz2_t)(gz_t)(gz_get(a) | gz_get(b))); }
 void __gmpz_xor(mpz_m *r, mpz_m *a, mpz_m *b) { gz_put(r, (gz2_t)(gz_t)(gz_get(a) ^ gz_get(b))); }
